@@ -1,6 +1,7 @@
 /-
   C10 model driver.  ops (see harness/c10):
     new <mtu> <frag> <reasm> <ifi> <cm> <thr> <seq>
+    mtu <n> | opt <frag> <ifi>      reconfiguration of the LIVE sending face between sends      => ok
     tx <id> <pkthex> <tokhex|-> <itok> <mark|-> <inface|-> <cong>   => n=<k> <framehex>*
     rx <id> <i>                                                    => ps=<n> [d=<pkthex>/<tokhex|->/<mark|->]* [st=<digest of all retained packets>]
     end                                                            => ps=<n> [h=<pkthex>/<tokhex|->/<mark|->]*   (every retained packet again)
@@ -82,6 +83,16 @@ def stepC10 (d : DSt) (op : String) (got : String) : StepResult DSt :=
                (if bool01 cm then ["cfg-congestion-marking"] else []) ++
                (if seq + 300 ≥ two64 then ["seq-near-2^64"] else if seq + 300 ≥ 4294967296 ∧ seq < 4294967296 then ["seq-near-2^32"] else []) }
     | _, _, _ => { st := {}, expected := some "bad-op" }
+  | ["mtu", n] =>
+    if !d.active then { st := d, expected := some "skip" } else
+    match n.toNat? with
+    | some n => { st := { d with cfg := { d.cfg with mtu := n } }, expected := some "ok", spec := crash,
+                  cov := [if n < d.cfg.mtu then "reconf-mtu-down" else "reconf-mtu-up"] }
+    | none => { st := d, expected := some "bad-op" }
+  | ["opt", frag, ifi] =>
+    if !d.active then { st := d, expected := some "skip" } else
+    { st := { d with cfg := { d.cfg with fragEnabled := bool01 frag, ifiEnabled := bool01 ifi } },
+      expected := some "ok", spec := crash, cov := ["reconf-options"] }
   | ["tx", id, pkt, tok, _itok, mark, inface, cong] =>
     if !d.active then { st := d, expected := some "skip" } else
     match bytesOfHex pkt, (if tok == "-" then some [] else bytesOfHex tok), optNatText mark, optNatText inface with
